@@ -8,7 +8,7 @@
 From Coq Require Import List NArith Arith Bool Lia.
 From GmsmVerif Require Import Lib.Outcome HS.HSTerms HS.HSModel HS.HSParsers HS.HSParserProofs HS.HSProofs
      HS.HSClientFlight HS.HSTlsClientFlight HS.HSServerFlight HS.HSRecords HS.HSTablesTie Gen.HSTables
-     HS.HSMsgParsers HS.HSMsgParserProofs HS.HSFlightTie.
+     HS.HSMsgParsers HS.HSMsgParserProofs HS.HSFlightTie HS.HSMsgMarshal HS.HSMsgMarshalProofs.
 Import ListNotations.
 Local Open Scope N_scope.
 
@@ -259,6 +259,51 @@ Theorem C15_serverHello_accepted_iff : forall data, accepts (serverHello_unmarsh
 Proof. exact serverHello_accepts_iff. Qed.
 Print Assumptions C15_serverHello_accepted_iff.
 
+(* ---- 4c. the marshal side: what one endpoint writes is what the other reads ------------------------------------ *)
+(* HS/HSMsgMarshal.v models marshal() of the same messages (the pieces marshal() writes, front to back, every uint8(x)
+   a reduction mod 256).  For every message VALUE inside the field widths (ch_wf / sh_wf / wf_any: lengths that fit
+   their length fields, 32-byte random, session id <= 32, a ticket / renegotiation string only with its flag, the
+   renegotiation flag set when the SCSV is among the suites, ALPN strings of 1..255 bytes, a non-empty last
+   certificate, ...) the package's own unmarshal gives the value back. *)
+Theorem C15_clientHello_roundtrip : forall m, ch_wf m -> clientHello_unmarshal (clientHello_marshal m) = Ok m.
+Proof. exact clientHello_roundtrip. Qed.
+Print Assumptions C15_clientHello_roundtrip.
+
+Theorem C15_serverHello_roundtrip : forall m, sh_wf m -> serverHello_unmarshal (serverHello_marshal m) = Ok m.
+Proof. exact serverHello_roundtrip. Qed.
+Print Assumptions C15_serverHello_roundtrip.
+
+(* every handshake message readHandshake dispatches on (HelloRequest excepted), in the context that decides the
+   layout (GMSupport: certificateRequestMsgGM; TLS 1.2: hasSignatureAndHash): parse after marshal is the identity on
+   well-formed values, so marshal is injective on them *)
+Theorem C15_any_message_roundtrip : forall ctx w, wf_any ctx w -> parse_any ctx (marshal_any ctx w) = Ok w.
+Proof. exact parse_marshal_any. Qed.
+Print Assumptions C15_any_message_roundtrip.
+
+Theorem C15_marshal_injective : forall ctx w1 w2, wf_any ctx w1 -> wf_any ctx w2 ->
+  marshal_any ctx w1 = marshal_any ctx w2 -> w1 = w2.
+Proof. exact marshal_any_injective. Qed.
+Print Assumptions C15_marshal_injective.
+
+(* the bodies eccKeyAgreementGM puts into ServerKeyExchange / ClientKeyExchange are read back by its process* side *)
+Theorem C15_gm_key_exchange_bodies_roundtrip : forall sig ct,
+  (sig <> [] -> (nlen sig < 65534)%N -> ecc_skx_prefix (ecc_skx_body sig) = Ok sig) /\
+  ((nlen ct < 65536)%N -> ecc_ckx_prefix (ecc_ckx_body ct) = Ok ct).
+Proof. intros. split; [apply ecc_skx_body_roundtrip|apply ecc_ckx_body_roundtrip]. Qed.
+Print Assumptions C15_gm_key_exchange_bodies_roundtrip.
+
+(* The byte transcript (what both Finished hashes are computed over) of any list of well-formed messages is read
+   back, header by header, into exactly those message values; so two lists with the same bytes are the same list. *)
+Theorem C15_transcript_read_back : forall ctx ws,
+  Forall (wf_any ctx) ws ->
+  read_msgs (S (length (transcript_bytes ctx ws))) ctx (transcript_bytes ctx ws) = Ok ws /\
+  (forall ws', Forall (wf_any ctx) ws' -> transcript_bytes ctx ws = transcript_bytes ctx ws' -> ws = ws').
+Proof.
+  intros ctx ws H. split; [apply read_msgs_transcript; [exact H|lia]|].
+  intros ws' H' E. apply (transcript_bytes_injective ctx ws ws' H H' E).
+Qed.
+Print Assumptions C15_transcript_read_back.
+
 (* ---- 5. the tables the models use are the ones in the source now -------------------------------------------- *)
 (* Gen/HSTables.v is regenerated from gmtls/cipher_suites.go, gm_support.go, common.go on every run: both suite tables
    row by row (id, key agreement, flag bits), the default suite lists, version numbers, minVersion / maxVersion,
@@ -478,3 +523,18 @@ Example C15_reads_examples :
   pick gen_reads_tls_client_resume [true] = [2; 4; 256; 20] /\
   reads [IHs MServerHelloDone; IAlert 1 100; ICCS true; IHs (MFinished TNil)] = [14; 256; 20].
 Proof. repeat split; reflexivity. Qed.
+
+(* marshal side: a ClientHello value with SNI, a ticket and ALPN, and a two-message transcript read back *)
+Definition ex_chv : ch_fields :=
+  mkCHF 257 (repeat 7 32) [1; 2] [57363; 255] [0] false [108; 111] true [23] [0] true [9; 9; 9] [513] true [] [[104; 50]; [120]] true.
+Example C15_marshal_examples :
+  clientHello_unmarshal (clientHello_marshal ex_chv) = Ok ex_chv /\
+  length (clientHello_marshal ex_chv) = 120%nat /\
+  read_msgs 200 (mkWCtx true false)
+    (transcript_bytes (mkWCtx true false) [WClientHello ex_chv; WCertificateRequestGM [1; 64] [[5; 6]]; WFinished [1; 2; 3]])
+    = Ok [WClientHello ex_chv; WCertificateRequestGM [1; 64] [[5; 6]]; WFinished [1; 2; 3]] /\
+  (* outside the domain: a ticket without the flag is not written, an empty last certificate is not read back *)
+  f_ticket (match clientHello_unmarshal (clientHello_marshal
+     (mkCHF 257 (repeat 7 32) [] [47] [0] false [] false [] [] false [9] [] false [] [] false)) with Ok m => m | _ => ex_chv end) = [] /\
+  certificate_unmarshal (certificate_marshal [[1]; []]) = Err 1.
+Proof. vm_compute. repeat split; reflexivity. Qed.
